@@ -484,6 +484,97 @@ fn rates(ctx: &mut Ctx, p: &Pm, integ: Integrator, n: usize, wing: bool) {
   }
 }
 
+
+// ------------------------------------------------------------------------------------------------
+// S: the rates must not depend on what was computed before on this thread
+// ------------------------------------------------------------------------------------------------
+
+/// `SPDC::efficiencies` called back to back for (setup, A), (setup, B), (setup with ONE parameter changed, A),
+/// (setup, A): each result must equal the rates formed from freshly evaluated spectra of that very setup and
+/// integrator (correction × Σ value·dω², 1e-9), and the last must repeat the first (1e-12).
+fn history_rates(ctx: &mut Ctx, p: &Pm) {
+  use spdcalc::dim::f64prefixes::MICRO;
+  let (w0s, w0i) = (p.s.signal.frequency(), p.s.idler.frequency());
+  let a = (1.2 * p.d_pm).min(1.5 * p.sigma) * RAD / S;
+  let range = FrequencySpace::new((w0s - a, w0s + a, 4), (w0i - a, w0i + a, 4));
+  let ia = Integrator::GaussLegendre { degree: 40 };
+  let ib = *ctx.rng.pick(&[Integrator::GaussLegendre { degree: 6 }, Integrator::Simpson { divs: 10 }, Integrator::Simpson { divs: 50 }]);
+  let mut s2 = p.s.clone();
+  let which = match ctx.rng.below(5) {
+    0 => {
+      s2.deff = s2.deff * 1.5;
+      "deff"
+    }
+    1 => {
+      s2.crystal_setup.temperature = s2.crystal_setup.temperature + 7.0 * spdcalc::dim::ucum::K;
+      "temperature"
+    }
+    2 => {
+      let w = s2.signal.waist().x * 1.25;
+      s2.signal.set_waist(w);
+      "signal-waist"
+    }
+    3 => {
+      s2.pump_average_power = s2.pump_average_power * 3.0;
+      "pump-power"
+    }
+    _ => {
+      s2.crystal_setup.length = s2.crystal_setup.length + 50.0 * MICRO * M;
+      "length"
+    }
+  };
+  let seq: Vec<(&SPDC, Integrator)> = vec![(&p.s, ia), (&p.s, ib), (&s2, ia), (&p.s, ia)];
+  // 1. the calls, back to back
+  let res = guard(|| seq.iter().map(|(s, i)| s.efficiencies(range, *i)).collect::<Vec<_>>());
+  let res = match res {
+    Some(r) => r,
+    None => {
+      ctx.count("skip/history-panic");
+      return;
+    }
+  };
+  // 2. afterwards: fresh spectra
+  let dw2 = {
+    let st = range.as_steps();
+    ((fr(st.0 .1) - fr(st.0 .0)) / 3.0) * ((fr(st.1 .1) - fr(st.1 .0)) / 3.0)
+  };
+  let rel = |x: f64, y: f64, eps: f64| x == y || (x - y).abs() <= eps * x.abs().max(y.abs());
+  let mut ok = true;
+  let mut why = String::new();
+  for (k, (s, i)) in seq.iter().enumerate() {
+    let fresh = guard(|| {
+      let js = s.joint_spectrum(*i);
+      let corr = get_counts_correction(s);
+      let sum = |v: Vec<JSIUnits<f64>>| corr * v.iter().map(|x| ju(*x) * dw2).sum::<f64>();
+      (sum(js.jsi_range(range)), sum(js.jsi_singles_range(range)), sum(js.jsi_singles_idler_range(range)))
+    });
+    if let Some((c, rs, ri)) = fresh {
+      let e = &res[k];
+      let got = (*(e.coincidences / HZ), *(e.signal_singles / HZ), *(e.idler_singles / HZ));
+      if !(rel(got.0, c, 1e-9) && rel(got.1, rs, 1e-9) && rel(got.2, ri, 1e-9)) {
+        ok = false;
+        why = format!("call{}:got=({:e},{:e},{:e})_fresh=({:e},{:e},{:e})", k, got.0, got.1, got.2, c, rs, ri);
+      }
+    }
+  }
+  let (f, l) = (&res[0], &res[3]);
+  if !(rel(*(f.coincidences / HZ), *(l.coincidences / HZ), 1e-12)
+    && rel(*(f.signal_singles / HZ), *(l.signal_singles / HZ), 1e-12)
+    && rel(*(f.idler_singles / HZ), *(l.idler_singles / HZ), 1e-12)
+    && rel(f.symmetric, l.symmetric, 1e-12))
+  {
+    ok = false;
+    why = "repeat-of-first-call-differs".into();
+  }
+  ctx.count(&format!("history/changed-{}", which));
+  ctx.s(
+    "C08.history",
+    ok,
+    if ok { "history/ok" } else { "history/rates-depend-on-history" },
+    &format!("{} changed={} integ_b={} why={}", p.tokens(), which, integ_name(&ib), if ok { "-".to_string() } else { why }),
+  );
+}
+
 // ------------------------------------------------------------------------------------------------
 // S: efficiency formulas on rate triples
 // ------------------------------------------------------------------------------------------------
@@ -881,6 +972,9 @@ pub fn run(ctx: &mut Ctx) {
       rates(ctx, &p, Integrator::Simpson { divs: 200 }, 7, true);
     }
     singles_k(ctx, &p.s, p.s.signal.frequency(), p.s.idler.frequency());
+    if done % 3 == 0 {
+      history_rates(ctx, &p);
+    }
   }
   let _ = vacuum_wavelength_to_frequency(1e-6 * M);
 }
